@@ -164,7 +164,7 @@ func rerun(h *H, vc VCase) VCase {
 }
 
 func validate(c *lib.Ctx, h *H, dir string) error {
-	n := c.Pick(1000, 40000)
+	n := c.Pick(1000, 20000)
 	rng := rand.New(rand.NewSource(c.Seed*7919 + 17))
 	cases := make([]VCase, 0, n)
 	// directed forms first: the confirmed defects and the documented examples
@@ -223,7 +223,7 @@ func validate(c *lib.Ctx, h *H, dir string) error {
 }
 
 func judgeV(c *lib.Ctx, h *H, dir string, cases []VCase) error {
-	bad, err := lib.Judge(c, "JudgePorts", dir, "JudgePorts", cases, 8, 12*time.Minute)
+	bad, err := lib.Judge(c, "JudgePorts", dir, "JudgePorts", cases, 4, 40*time.Minute)
 	if err != nil {
 		return err
 	}
